@@ -2,6 +2,7 @@ package c15
 
 import (
 	"crypto/sha256"
+	"encoding/json"
 	"fmt"
 	"strings"
 	"testing"
@@ -24,23 +25,28 @@ import (
 	"github.com/nspcc-dev/neo-go/pkg/vm/opcode"
 )
 
-// The probe contract. check(accs, next) records CheckWitness of every element
-// of accs, then invokes the next frame as told by next, then records the checks
-// again and returns [pre, sub, post].
+// The probe contract. check(accs, next, mut) records CheckWitness of every
+// element of accs, then (mut) changes its own group membership, then invokes
+// the next frame as told by next, then records the checks again and returns
+// [pre, sub, post].
 //
-//	next = []                         stop
-//	next = [0, contractHash, next']   contract.Call(contractHash, "check", All, accs, next')
-//	next = [1, script]                System.Runtime.LoadScript(script) (the script embeds its own continuation)
-//	next = [2, receiverHash, next']   GAS.transfer(a, stranger, 0, nil) for every 20-byte a of accs (the native
-//	                                  frame's own witness check), then GAS.transfer(self, receiver, 0, [accs, next']):
-//	                                  the native contract calls receiver.onNEP17Payment, which runs the same
-//	                                  recording and publishes its result in a "w" notification.
+//	mut  = []                         nothing
+//	mut  = [0, manifest]              ContractManagement.update(nil, manifest): same contract, other groups
+//	mut  = [1]                        ContractManagement.destroy()
+//	next = []                               stop
+//	next = [0, contractHash, next', mut']   contract.Call(contractHash, "check", All, accs, next', mut')
+//	next = [1, script]                      System.Runtime.LoadScript(script) (the script embeds its own continuation)
+//	next = [2, receiverHash, next', mut']   GAS.transfer(a, stranger, 0, nil) for every 20-byte a of accs (the native
+//	                                        frame's own witness check), then GAS.transfer(self, receiver, 0, [accs, next', mut']):
+//	                                        the native contract calls receiver.onNEP17Payment, which runs the same
+//	                                        recording and publishes its result in a "w" notification.
 const probeSrc = `package wit
 
 import (
 	"github.com/nspcc-dev/neo-go/pkg/interop"
 	"github.com/nspcc-dev/neo-go/pkg/interop/contract"
 	"github.com/nspcc-dev/neo-go/pkg/interop/native/gas"
+	"github.com/nspcc-dev/neo-go/pkg/interop/native/management"
 	"github.com/nspcc-dev/neo-go/pkg/interop/runtime"
 )
 
@@ -52,13 +58,20 @@ func wit(accs []any) []any {
 	return res
 }
 
-func run(accs []any, next []any) []any {
+func run(accs []any, next []any, mut []any) []any {
 	pre := wit(accs)
+	if len(mut) > 0 {
+		if mut[0].(int) == 0 {
+			management.Update(nil, mut[1].([]byte))
+		} else {
+			management.Destroy()
+		}
+	}
 	var sub any
 	if len(next) > 0 {
 		kind := next[0].(int)
 		if kind == 0 {
-			sub = contract.Call(next[1].(interop.Hash160), "check", contract.All, accs, next[2])
+			sub = contract.Call(next[1].(interop.Hash160), "check", contract.All, accs, next[2], next[3])
 		} else if kind == 1 {
 			sub = runtime.LoadScript(next[1].([]byte), contract.All)
 		} else {
@@ -71,7 +84,7 @@ func run(accs []any, next []any) []any {
 					nat = append(nat, nil)
 				}
 			}
-			ok := gas.Transfer(runtime.GetExecutingScriptHash(), next[1].(interop.Hash160), 0, []any{accs, next[2]})
+			ok := gas.Transfer(runtime.GetExecutingScriptHash(), next[1].(interop.Hash160), 0, []any{accs, next[2], next[3]})
 			sub = []any{nat, ok}
 		}
 	}
@@ -79,13 +92,13 @@ func run(accs []any, next []any) []any {
 	return []any{pre, sub, post}
 }
 
-func Check(accs []any, next []any) []any {
-	return run(accs, next)
+func Check(accs []any, next []any, mut []any) []any {
+	return run(accs, next, mut)
 }
 
 func OnNEP17Payment(from interop.Hash160, amount int, data any) {
 	d := data.([]any)
-	runtime.Notify("w", run(d[0].([]any), d[1].([]any)))
+	runtime.Notify("w", run(d[0].([]any), d[1].([]any), d[2].([]any)))
 }
 `
 
@@ -100,6 +113,8 @@ type world struct {
 	bc       *core.Blockchain
 	probes   [3]*neotest.Contract
 	pframes  [3]frame
+	mans     [3][4][]byte // manifest JSON of probe i with group set k (same contract, other groups)
+	gsets    [4][][]byte  // group sets: {}, {g}, {g2}, {g, g2}
 	gasFrame frame
 	g        [3]*keys.PublicKey // g, g2 (used by contracts), g3 (used by nobody)
 	accKey   *keys.PublicKey
@@ -152,6 +167,20 @@ func newWorld(t *testing.T) *world {
 		e.DeployContract(t, c, nil)
 		w.probes[i] = c
 		w.pframes[i] = f
+		for k, set := range [][]*keys.PrivateKey{{}, {gk[0]}, {gk[1]}, {gk[0], gk[1]}} {
+			m := *c.Manifest
+			m.Groups = []manifest.Group{}
+			w.gsets[k] = [][]byte{}
+			for _, key := range set {
+				m.Groups = append(m.Groups, manifest.Group{PublicKey: key.PublicKey(), Signature: key.Sign(c.Hash.BytesBE())})
+				w.gsets[k] = append(w.gsets[k], key.PublicKey().Bytes())
+			}
+			b, err := json.Marshal(&m)
+			if err != nil {
+				t.Fatal(err)
+			}
+			w.mans[i][k] = b
+		}
 	}
 	w.gasFrame = frame{hash: nativehashes.GasToken, kind: "native", name: "GAS"}
 	w.accKey = detKey("acc").PublicKey()
@@ -170,23 +199,76 @@ func anyTargets(targets [][]byte) []any {
 	return r
 }
 
+// mutation of a probe frame: mutNone, 0..3 = update to group set k, mutDestroy.
+const (
+	mutNone    int8 = -1
+	mutDestroy int8 = 4
+)
+
+// chainSpec is a call chain plus, per symbol, what the frame does to its own
+// group membership between its first checks and the nested call.
+type chainSpec struct {
+	syms []sym
+	muts []int8
+	id   string
+}
+
+func mkChain(syms []sym, muts []int8) chainSpec {
+	if muts == nil {
+		muts = make([]int8, len(syms))
+		for i := range muts {
+			muts[i] = mutNone
+		}
+	}
+	id := ""
+	for i, s := range syms {
+		id += string(rune(s))
+		switch {
+		case muts[i] == mutDestroy:
+			id += "x"
+		case muts[i] >= 0:
+			id += string(rune('0' + muts[i]))
+		}
+	}
+	return chainSpec{syms: syms, muts: muts, id: id}
+}
+
+func (c chainSpec) mutated() bool {
+	for _, m := range c.muts {
+		if m != mutNone {
+			return true
+		}
+	}
+	return false
+}
+
+func (w *world) mutArg(p int, m int8) []any {
+	switch {
+	case m == mutNone:
+		return []any{}
+	case m == mutDestroy:
+		return []any{1}
+	}
+	return []any{0, w.mans[p][m]}
+}
+
 // nextArg builds the descriptor a probe frame receives to invoke rest[0] and
 // returns the frames that invocation adds.
-func (w *world) nextArg(targets [][]byte, rest []sym) ([]any, []frame) {
+func (w *world) nextArg(targets [][]byte, rest []sym, muts []int8) ([]any, []frame) {
 	if len(rest) == 0 {
 		return []any{}, nil
 	}
 	switch s := rest[0]; s {
 	case 'A', 'B', 'C':
-		sub, fr := w.nextArg(targets, rest[1:])
-		return []any{0, w.probes[w.probeIdx(s)].Hash, sub}, append([]frame{w.pframes[w.probeIdx(s)]}, fr...)
+		sub, fr := w.nextArg(targets, rest[1:], muts[1:])
+		return []any{0, w.probes[w.probeIdx(s)].Hash, sub, w.mutArg(w.probeIdx(s), muts[0])}, append([]frame{w.pframes[w.probeIdx(s)]}, fr...)
 	case 'D':
-		script, fr := w.script(targets, rest[1:])
+		script, fr := w.script(targets, rest[1:], muts[1:])
 		return []any{1, script}, append([]frame{{hash: hash.Hash160(script), kind: "dyn", name: "D"}}, fr...)
 	case 'N':
 		r := w.probeIdx(rest[1])
-		sub, fr := w.nextArg(targets, rest[2:])
-		return []any{2, w.probes[r].Hash, sub}, append([]frame{w.gasFrame, w.pframes[r]}, fr...)
+		sub, fr := w.nextArg(targets, rest[2:], muts[2:])
+		return []any{2, w.probes[r].Hash, sub, w.mutArg(r, muts[1])}, append([]frame{w.gasFrame, w.pframes[r]}, fr...)
 	}
 	panic("bad chain symbol")
 }
@@ -213,7 +295,7 @@ func pack(bw *io.BinWriter, n int) {
 
 // script builds a script frame (the entry script or a dynamic script) that
 // records the checks, invokes rest, records again and leaves [pre, sub, post].
-func (w *world) script(targets [][]byte, rest []sym) ([]byte, []frame) {
+func (w *world) script(targets [][]byte, rest []sym, muts []int8) ([]byte, []frame) {
 	buf := io.NewBufBinWriter()
 	bw := buf.BinWriter
 	var frames []frame
@@ -222,7 +304,7 @@ func (w *world) script(targets [][]byte, rest []sym) ([]byte, []frame) {
 	case len(rest) == 0:
 		emit.Opcodes(bw, opcode.PUSHNULL)
 	case rest[0] == 'D':
-		inner, fr := w.script(targets, rest[1:])
+		inner, fr := w.script(targets, rest[1:], muts[1:])
 		frames = append([]frame{{hash: hash.Hash160(inner), kind: "dyn", name: "D"}}, fr...)
 		emit.Opcodes(bw, opcode.NEWARRAY0)
 		emit.Int(bw, int64(callflag.All))
@@ -231,7 +313,7 @@ func (w *world) script(targets [][]byte, rest []sym) ([]byte, []frame) {
 	case rest[0] == 'N':
 		// Only the entry script does this (a dynamic script has read-only flags).
 		r := w.probeIdx(rest[1])
-		sub, fr := w.nextArg(targets, rest[2:])
+		sub, fr := w.nextArg(targets, rest[2:], muts[2:])
 		frames = append([]frame{w.gasFrame, w.pframes[r]}, fr...)
 		for _, t := range targets {
 			if len(t) == 20 {
@@ -241,13 +323,13 @@ func (w *world) script(targets [][]byte, rest []sym) ([]byte, []frame) {
 			}
 		}
 		pack(bw, len(targets))
-		emit.AppCall(bw, nativehashes.GasToken, "transfer", callflag.All, w.decoyG, w.probes[r].Hash, 0, []any{anyTargets(targets), sub})
+		emit.AppCall(bw, nativehashes.GasToken, "transfer", callflag.All, w.decoyG, w.probes[r].Hash, 0, []any{anyTargets(targets), sub, w.mutArg(r, muts[1])})
 		pack(bw, 2)
 	default:
 		i := w.probeIdx(rest[0])
-		sub, fr := w.nextArg(targets, rest[1:])
+		sub, fr := w.nextArg(targets, rest[1:], muts[1:])
 		frames = append([]frame{w.pframes[i]}, fr...)
-		emit.AppCall(bw, w.probes[i].Hash, "check", callflag.All, anyTargets(targets), sub)
+		emit.AppCall(bw, w.probes[i].Hash, "check", callflag.All, anyTargets(targets), sub, w.mutArg(i, muts[0]))
 	}
 	emitChecks(bw, targets)
 	pack(bw, 3)
@@ -292,5 +374,38 @@ func chains(alphabet string, maxLen int) [][]sym {
 		}
 	}
 	rec(nil)
+	return out
+}
+
+// mutations enumerates, for a chain, every way to let exactly one probe frame
+// change its own groups: update to each of the four group sets that differs
+// from the deployed one, or destroy. The frame must hold write flags (not at
+// or below a dynamic script) and a destroyed contract must not be invoked
+// again later in the chain.
+func (w *world) mutations(c []sym) []chainSpec {
+	deployed := [3]int8{1, 0, 3} // A: {g}, B: {}, C: {g, g2}
+	var out []chainSpec
+	for i, s := range c {
+		if s == 'D' {
+			break
+		}
+		if s == 'N' {
+			continue
+		}
+		for m := int8(0); m <= mutDestroy; m++ {
+			if m == deployed[w.probeIdx(s)] {
+				continue
+			}
+			if m == mutDestroy && strings.ContainsRune(string(c[i+1:]), rune(s)) {
+				continue
+			}
+			muts := make([]int8, len(c))
+			for k := range muts {
+				muts[k] = mutNone
+			}
+			muts[i] = m
+			out = append(out, mkChain(c, muts))
+		}
+	}
 	return out
 }
